@@ -1,3 +1,6 @@
+import Mathlib.Data.List.Basic
+import Mathlib.Algebra.Order.Ring.Rat
+import Mathlib.Tactic.Linarith
 import DtsVerif.Props.C01
 import Mathlib.Tactic.FieldSimp
 import Mathlib.Data.Real.Basic
@@ -45,5 +48,97 @@ theorem C03_match_pairing (h t : List Nat) (hl : h.length = t.length) (i : Nat) 
   constructor
   · simp
   · simp [List.getElem_reverse]
+
+/-! ## The splice acts on the same locations everywhere -/
+
+/-- first index of `range n` satisfying `p`, characterised -/
+theorem find_range_spec (n : Nat) (p : Nat → Bool) (k : Nat) (h : (List.range n).find? p = some k) :
+    k < n ∧ p k = true ∧ ∀ j, j < k → p j = false := by
+  induction n with
+  | zero => simp at h
+  | succ n ih =>
+    rw [List.range_succ, List.find?_append] at h
+    cases hf : (List.range n).find? p with
+    | some k' =>
+      rw [hf] at h
+      simp at h
+      subst h
+      obtain ⟨h1, h2, h3⟩ := ih hf
+      exact ⟨by omega, h2, h3⟩
+    | none =>
+      rw [hf] at h
+      simp at h
+      obtain ⟨hp, rfl⟩ := h
+      refine ⟨by omega, hp, ?_⟩
+      intro j hj
+      have := List.find?_eq_none.mp hf j (List.mem_range.mpr hj)
+      simpa using this
+
+theorem find_range_none (n : Nat) (p : Nat → Bool) (h : (List.range n).find? p = none) : ∀ j, j < n → p j = false := by
+  intro j hj
+  have := List.find?_eq_none.mp h j (List.mem_range.mpr hj)
+  simpa using this
+
+/-- **C03 (the splice acts on the same locations in the design matrix and in the temperature equation).** For strictly increasing
+positions the code's index rule `ix_sec_ta_ix0` marks row `r` as downstream of the splice exactly when `x_r ≥ s` — the rule of the
+temperature equation (`C04_splice_mask`), of the matching rows and of `calc_alpha_double`. (False for the rule before commit
+0c4e4ae, which sent `s = x_last` to "behind every location".) -/
+theorem C03_splice_mask_consistent (xs : Array Rat) (s : Rat)
+    (hmono : ∀ i j, i < j → j < xs.size → xs.getD i 0 < xs.getD j 0) (r : Nat) (hr : r < xs.size) :
+    r ≥ Input.taIx0 xs s ↔ xs.getD r 0 ≥ s := by
+  unfold Input.taIx0
+  have hpos : xs.size ≠ 0 := by omega
+  simp only [hpos, if_false]
+  have hle_last : xs.getD r 0 ≤ xs.getD (xs.size - 1) 0 := by
+    rcases Nat.lt_or_ge r (xs.size - 1) with h | h
+    · exact le_of_lt (hmono r (xs.size - 1) h (by omega))
+    · have : r = xs.size - 1 := by omega
+      rw [this]
+  have hge_first : xs.getD 0 0 ≤ xs.getD r 0 := by
+    rcases Nat.eq_zero_or_pos r with h | h
+    · rw [h]
+    · exact le_of_lt (hmono 0 r h hr)
+  by_cases h1 : s > xs.getD (xs.size - 1) 0
+  · simp only [h1, if_true]
+    constructor
+    · intro h; omega
+    · intro h; exfalso; linarith
+  · simp only [h1, if_false]
+    by_cases h2 : s ≤ xs.getD 0 0
+    · simp only [h2, if_true]
+      constructor
+      · intro _; linarith
+      · intro _; omega
+    · simp only [h2, if_false]
+      cases hf : (List.range xs.size).find? (fun k => decide (xs.getD k 0 ≥ s)) with
+      | none =>
+        have := of_decide_eq_false (find_range_none _ _ hf (xs.size - 1) (by omega))
+        exfalso; push Not at h1; exact this h1
+      | some k =>
+        obtain ⟨hk, hpk, hmin⟩ := find_range_spec _ _ k hf
+        simp only [Option.getD_some]
+        have hpk' : xs.getD k 0 ≥ s := of_decide_eq_true hpk
+        constructor
+        · intro hrk
+          rcases Nat.lt_or_ge k r with h | h
+          · have := hmono k r h hr; linarith
+          · have : r = k := by omega
+            rw [this]; exact hpk'
+        · intro hge
+          by_contra hlt
+          exact (of_decide_eq_false (hmin r (by omega))) hge
+
+/-- the rule before commit 0c4e4ae: a splice AT the last location counted as behind every location -/
+def taIx0Old (xs : Array Rat) (s : Rat) : Nat :=
+  if xs.size = 0 then 0
+  else if s ≥ xs.getD (xs.size - 1) 0 then xs.size
+  else if s ≤ xs.getD 0 0 then 0
+  else ((List.range xs.size).find? (fun k => xs.getD k 0 ≥ s)).getD xs.size
+
+/-- **Refutation of the old rule (regression guard).** Two locations at 0 and 1, a splice at 1: location 1 is downstream by the
+temperature equation but the old index rule put it upstream. -/
+theorem C03_old_rule_inconsistent : ¬ ((1 : Nat) ≥ taIx0Old #[0, 1] 1 ↔ (#[0, 1] : Array Rat).getD 1 0 ≥ 1) := by decide +kernel
+
+example : (1 : Nat) ≥ Input.taIx0 #[0, 1] 1 ↔ (#[0, 1] : Array Rat).getD 1 0 ≥ 1 := by decide +kernel
 
 end DtsVerif.C03
